@@ -37,7 +37,7 @@ type daemonRunResult struct {
 	exit     int
 }
 
-func daemonRun(r *vlib.Rng, nsess int, big, uncorrelated, race bool) *daemonRunResult {
+func daemonRun(r *vlib.Rng, nsess int, big, uncorrelated, race, phased bool) *daemonRunResult {
 	res := &daemonRunResult{}
 	d, err := startDaemon(daemonOpts{race: race})
 	if err != nil {
@@ -54,7 +54,16 @@ func daemonRun(r *vlib.Rng, nsess int, big, uncorrelated, race bool) *daemonRunR
 	}
 	defer ws.Close()
 	defer wa.Close()
-	res.overlaps = playScenario(d, res.sc, ws, wa)
+	if phased {
+		res.sc.Phased = true
+		if !playPhased(d, res.sc, ws, wa) {
+			exited, dump := d.waitExit(time.Second)
+			res.why = fmt.Sprintf("phased play failed (daemon exited=%v): %s", exited, trunc(d.stderr.String()+dump, 1500))
+			return res
+		}
+	} else {
+		res.overlaps = playScenario(d, res.sc, ws, wa)
+	}
 	if !markerBarrier(d, ws, wa, 90*time.Second) {
 		exited, dump := d.waitExit(time.Second)
 		res.why = fmt.Sprintf("marker barrier not reached (daemon exited=%v): %s", exited, trunc(d.stderr.String()+dump, 1500))
@@ -228,7 +237,7 @@ func c10InProcess(seed int64, b int, out *childOut) {
 }
 
 func checkC10(r *vlib.Run) int {
-	nScen := r.Pick(3, 30)
+	nScen := r.Pick(6, 30)
 	lines, bytesTotal, largest, sessions := 0, 0, 0, 0
 	var overlaps int64
 	dist := vlib.NewDistinct()
@@ -242,7 +251,7 @@ func checkC10(r *vlib.Run) int {
 		for s := 0; s < nScen; s++ {
 			rng := vlib.NewRng(r.Seed, fmt.Sprintf("C10/%v/%d", race, s))
 			nsess := 50 + rng.Intn(r.Pick(150, 450))
-			res := daemonRun(rng, nsess, true, false, race)
+			res := daemonRun(rng, nsess, true, false, race, s%3 == 1)
 			if !res.ok {
 				r.Broken("daemon scenario could not be observed: " + res.why)
 				continue
@@ -260,7 +269,10 @@ func checkC10(r *vlib.Run) int {
 			}
 			sessions += len(res.sc.Sessions)
 			overlaps += res.overlaps
-			dist.Add(fmt.Sprintf("race=%v|window=%d|sessions=%d", race, res.sc.Window, nsess))
+			dist.Add(fmt.Sprintf("race=%v|window=%d|phased=%v|sessions=%d", race, res.sc.Window, res.sc.Phased, nsess))
+			if res.sc.Phased {
+				r.Add("phased_scenarios_audit_first", 1)
+			}
 			if s == 0 && !race {
 				r.Sample(map[string]any{"sessions": nsess, "window": res.sc.Window, "output_lines": len(res.out.Events), "first_line": string(res.out.Raw[0])})
 			}
@@ -283,6 +295,7 @@ func checkC10(r *vlib.Run) int {
 	r.Require(lines > 500, "fewer than 500 output lines parsed")
 	r.Require(largest > 20000, "no large (>20 kB) event line was produced")
 	r.Require(overlaps > 0, "the two writers were never active at the same time")
+	r.Require(r.Get("phased_scenarios_audit_first") > 0, "no phased (audit records first) scenario was run")
 	r.Require(ip.stats["useractions_order_checked"] > 100, "too few in-process order checks")
 	r.Assumptions = []string{"atomicity of one write(2) on an O_APPEND regular file is an OS guarantee that is observed, not established",
 		"a daemon that dies or never reaches the marker barrier makes the run 'check broken', not a violation of this property"}
@@ -296,7 +309,7 @@ func daemonCorrelation(r *vlib.Run, class string) {
 	checked, lines := 0, 0
 	for s := 0; s < nScen; s++ {
 		rng := vlib.NewRng(r.Seed, fmt.Sprintf("%s/daemon/%d", class, s))
-		res := daemonRun(rng, 50+rng.Intn(150), false, class == "C04", false)
+		res := daemonRun(rng, 50+rng.Intn(150), false, class == "C04", false, s%4 == 1)
 		if !res.ok {
 			r.Broken("daemon scenario could not be observed: " + res.why)
 			continue
